@@ -476,6 +476,29 @@ theorem C01_meaning (ρ : Sem.Env) (c c' : Circuit) (hc : ParserLike c) (hc' : P
     C20.MeaningEq (Sem.meaning ρ c) (Sem.meaning ρ c') :=
   (C20.C20_sound ρ c c' hc hc' horder heq).2.2
 
+/-- **Same meaning, unconditionally**: under the hypotheses of `C01_roundtrip_bounded` the re-parsed circuit has the same
+gate-level meaning (`Spec/Sem.lean`, numbers by value) as the original one under EVERY override environment — the round
+trip (`C01_roundtrip_bounded`: the re-parse `c'` is `==` to `c`) composed with the soundness of `==` for parser-produced
+circuits (`C20_sound_parsed`: both circuits come out of `parse_jaqal_string`, so neither `ParserLike` nor a common macro
+order has to be assumed). -/
+theorem C01_meaning_parsed (cfg : Config) (txt : String) (c : Circuit) (ha : cfg.autoload = false)
+    (h : parseProgram cfg txt = .ok c) (hi : IntsBounded c) :
+    ∃ t c', gen c = .ok t ∧ parseProgram cfg t = .ok c' ∧ circuitEq c c' = true ∧ gen c' = .ok t ∧
+      ∀ ρ : Sem.Env, C20.MeaningEq (Sem.meaning ρ c) (Sem.meaning ρ c') := by
+  obtain ⟨t, c', h1, h2, h3, h4⟩ := C01_roundtrip_bounded cfg txt c ha h hi
+  exact ⟨t, c', h1, h2, h3, h4, fun ρ => (C20.C20_sound_parsed cfg cfg txt t c c' ρ ha ha h h2 h3).2.2⟩
+
+/-- non-vacuity: the accepted text of `C01_example_accepted` (a let, an indexed qubit, a macro and a call) -/
+example : ∃ c t c', parseProgram {} "register r[2]\nlet n 1\nG r[n]\nmacro m a { G a }\nm r[0]\n" = .ok c ∧
+    gen c = .ok t ∧ parseProgram {} t = .ok c' ∧ ∀ ρ : Sem.Env, C20.MeaningEq (Sem.meaning ρ c) (Sem.meaning ρ c') := by
+  have h0 := C01_example_accepted
+  cases h : parseProgram {} "register r[2]\nlet n 1\nG r[n]\nmacro m a { G a }\nm r[0]\n" with
+  | error e => rw [h] at h0; cases h0
+  | ok c =>
+    rw [h] at h0
+    obtain ⟨t, c', h1, h2, _, _, h5⟩ := C01_meaning_parsed {} _ c rfl h (by simpa using h0)
+    exact ⟨c, t, c', rfl, h1, h2, h5⟩
+
 /-! ## circuits built through the builder API -/
 
 /-- What "built from legal identifiers and finite numbers within Jaqal's legal block nesting" means for an
@@ -675,6 +698,7 @@ program (op `round_trip_layers`). -/
 #print axioms C01_zero_step_rejected
 #print axioms C01_no_literal_zero_step
 #print axioms C01_meaning
+#print axioms C01_meaning_parsed
 #print axioms C01_builder_api
 #print axioms C01_builder_float_size_printable
 #print axioms C01_asInteger_idem
